@@ -352,6 +352,32 @@ func TestVerifC04MinPrefix(t *testing.T) {
 		sortInts(cuts)
 		cases = append(cases, c04Case{TT: c.TT, Params: c.Params, Desc: c.Desc, Cuts: cuts, Early: e, Others: rng.Intn(2) == 0, EarlyAttempt: rng.Intn(5) == 0})
 	}
+	// (d) many cuts inside the handshake: a flight may arrive in any number of segments (a slow or deliberately
+	// fragmenting client): 8..48 cuts, and every byte as its own segment
+	for _, c := range cfgs {
+		for _, k := range []int{8, 9, 10, 12, 16, 24, 32, 48} {
+			for rep := 0; rep < kit.Tier(1, 6); rep++ {
+				if k >= c.FLen {
+					continue
+				}
+				seen := map[int]bool{}
+				var cuts []int
+				for len(cuts) < k {
+					if p := 1 + rng.Intn(c.FLen-1); !seen[p] {
+						seen[p] = true
+						cuts = append(cuts, p)
+					}
+				}
+				sortInts(cuts)
+				cases = append(cases, c04Case{TT: c.TT, Params: c.Params, Desc: c.Desc, Cuts: cuts, Early: earlies[(k+rep)%len(earlies)], Others: k%2 == 0})
+			}
+		}
+		var every []int
+		for p := 1; p < c.FLen; p++ {
+			every = append(every, p)
+		}
+		cases = append(cases, c04Case{TT: c.TT, Params: c.Params, Desc: c.Desc, Cuts: every, Early: 31, Others: true})
+	}
 	var wg sync.WaitGroup
 	ch := make(chan c04Case, 64)
 	for i := 0; i < 16; i++ {
@@ -601,4 +627,105 @@ func TestVerifC04Obfs4(t *testing.T) {
 	}
 	close(ch)
 	wg.Wait()
+}
+
+// TestVerifC04Obfs4Lengths: the obfs4 client pads its handshake with a random amount, so handshake lengths range from
+// the protocol minimum to 8192 bytes and an interactive session only ever sees one random length.  Here thousands of
+// genuine client handshakes are generated with the real client transport; the shortest and the longest ones seen, plus
+// a sample in between, are presented to the real handler (whole, and cut into 3 and into 12 segments).  Every one of
+// them must be recognised: the covert listener of the registration receives the station's connection.
+// (covert recorder and two-step conn shared with the C08 handler stage)
+func TestVerifC04Obfs4Lengths(t *testing.T) {
+	rec := kit.NewRec("C04", "obfs4lengths")
+	defer rec.Close()
+	rng := kit.Rand("c04-o4len")
+	s := vNewStation(t, "c04ol")
+	phantom := net.IPv4(198, 20, 0, 7).To4()
+	cov := c08NewCovert(t)
+	defer cov.ln.Close()
+	// three registrations share the phantom (the station has to pick the right one)
+	var sp vRegSpec
+	for i := 0; i < 3; i++ {
+		x := vRegSpec{Secret: vSecret(rng), TT: pb.TransportType_Obfs4, Params: &pb.GenericTransportParams{RandomizeDstPort: boolp(false)}, LibVer: 4, Phantom: phantom, Covert: cov.ln.Addr().String()}
+		if _, err := s.vAdmit(x); err != nil {
+			t.Fatal(err)
+		}
+		if i == 1 {
+			sp = x
+		}
+	}
+	draws := kit.Tier(4000, 40000)
+	byLen := map[int][]byte{}
+	for i := 0; i < draws; i++ {
+		fl, err := s.vFlight(sp)
+		if err != nil {
+			t.Fatalf("client handshake: %v", err)
+		}
+		if _, ok := byLen[len(fl)]; !ok {
+			byLen[len(fl)] = fl
+		}
+	}
+	var lens []int
+	for l := range byLen {
+		lens = append(lens, l)
+	}
+	sortInts(lens)
+	rec.Count("client_handshakes_generated", draws)
+	rec.Count("distinct_handshake_lengths", len(lens))
+	rec.Note(fmt.Sprintf("handshake lengths seen: %d … %d", lens[0], lens[len(lens)-1]))
+	pick := map[int]bool{}
+	for i := 0; i < len(lens) && i < kit.Tier(12, 200); i++ {
+		pick[lens[i]] = true // the shortest
+	}
+	for i := len(lens) - 1; i >= 0 && i >= len(lens)-kit.Tier(4, 50); i-- {
+		pick[lens[i]] = true // the longest
+	}
+	for i := 0; i < kit.Tier(8, 600); i++ {
+		pick[lens[rng.Intn(len(lens))]] = true
+	}
+	var chosen []int
+	for l := range pick {
+		chosen = append(chosen, l)
+	}
+	sortInts(chosen)
+	port := 43000
+	for _, l := range chosen {
+		fl := byLen[l]
+		for _, nseg := range []int{1, 3, 12} {
+			port++
+			label := fmt.Sprintf("obfs4 handshake of %d bytes in %d segment(s)", l, nseg)
+			rec.CaseCheap(label)
+			conn := kit.NewScriptConn("client", kit.TCPAddr(phantom.String(), 443), kit.TCPAddr("203.0.113.77", port), nil, kit.EndBlock)
+			conn.MaxBlock = 60 * time.Second
+			var cuts []int
+			for j := 1; j < nseg; j++ {
+				cuts = append(cuts, 1+rng.Intn(l-1))
+			}
+			sortInts(cuts)
+			before, _ := cov.settle()
+			done := make(chan struct{})
+			go func() { s.vHandle(conn, phantom); close(done) }()
+			conn.Feed(c03Segments(fl, cuts)...)
+			// the station answers the handshake and dials the covert; the (mute) client then goes away
+			recognised := vWaitFor(4*time.Second, func() bool { return cov.accepts.Load() > before })
+			conn.SetAtEnd(kit.EndEOF)
+			select {
+			case <-done:
+			case <-time.After(60 * time.Second):
+				conn.Close()
+				<-done
+			}
+			after, ok := cov.settle()
+			if !ok {
+				rec.Inconclusive("covert recorder did not settle", label)
+				continue
+			}
+			rec.Count("evaluations", 1)
+			rec.Distinct("nontrivial", l, nseg)
+			if after <= before && !recognised {
+				rec.Violation("obfs4:genuine-handshake-not-recognised", "a genuine obfs4 client handshake for a validated registration on this phantom was not matched (no connection to its covert)",
+					map[string]interface{}{"case": label, "handshake_length": l, "cuts": cuts, "ops": opsTail(conn)})
+			}
+		}
+	}
 }
